@@ -33,16 +33,25 @@ GenClasses == [Procs -> {BehOps(b) : b \in ClassBehNames \cup {"none"}}]
 GenEvery == [Procs -> {BehOps(b) : b \in AllBehNames \cup ClassBehNames \cup HijackBehNames}]
 GenHijack == [Procs -> {BehOps(b) : b \in HijackBehNames \cup {"none", "wh404"}}]
 GenEvery3 == [Procs -> {BehOps(b) : b \in AllBehNames \cup ClassBehNames \cup HijackBehNames}]
+GenNeg == [Procs -> {BehOps(b) : b \in {"none", "wh404"}}]
 GenThree == [Procs -> {BehOps(b) : b \in {"none", "wh404", "twice"}}]
+
+(* The "started" / "finished" gates are the base handler's Handle: they only *)
+(* exist while the logger's level lets the middleware's records through.     *)
+Parks(p, step) == \/ step = "done"
+                  \/ step \in GateSet /\ ~(step \in {"started", "finished"} /\ ~lvl.on)
 
 GInit == Init /\ running = 0 /\ hist = <<>>
 
-GNext == \E p \in Procs :
+GNext == \/ \E p \in Procs :
             /\ running \in {0, p}
             /\ Step(p)
-            /\ IF pc'[p] \in GateSet \cup {"done"}
+            /\ IF Parks(p, pc'[p])
                  THEN running' = 0 /\ hist' = Append(hist, <<p, pc'[p]>>)
                  ELSE running' = p /\ hist' = hist
+         \* the environment changes the logger's level while nobody runs: process 0 in the schedule
+         \/ /\ running = 0 /\ SetLevel /\ running' = 0
+            /\ hist' = Append(hist, <<0, IF lvl'.on THEN "level:on" ELSE "level:off">>)
 
 GSpec == GInit /\ [][GNext]_gvars
 
@@ -54,7 +63,7 @@ FinOf(p) == LET I == {i \in 1..Len(records) : records[i].m = "finished" /\ recor
 Pred(p) == [fin |-> FinOf(p), expected |-> ExpectedFin(ops[p]), allowed |-> AllowedFin(ops[p]),
             status |-> ClientStatus(client[p]), calls |-> client[p]]
 
-Vector == [n |-> Cardinality(Procs), retain |-> Retain, gates |-> GateSet, mwon |-> MwEnabled, forms |-> FormOf,
+Vector == [n |-> Cardinality(Procs), retain |-> Retain, gates |-> GateSet, mwon |-> MwEnabled, forms |-> FormOf, ups |-> UpOf,
            ops |-> [p \in Procs |-> ops[p]],
            sched |-> hist,
            pred |-> [p \in Procs |-> Pred(p)]]
